@@ -25,8 +25,8 @@ import (
 // as inconclusive, never as a violation).
 func init() {
 	Register("replicas", runReplicas)
-	RegisterPlan(Plan{Prop: "C08", Engine: "replicas", Quick: 26, Thorough: 390, Level: "exploration", MinCases: 13,
-		Rule: "13 workload families (ledger default/slash/keys/power/queues/exit/invalid, oracle, fees, authz, evmacct, live, avs) x batches of 3-6 histories, each batch executed by 3 replica processes (GOMAXPROCS 16 / 1 / 3, time zones UTC / Asia/Kolkata / America/St_Johns, the third replica restarting the application object over the same database every 7 blocks where the family has no recorded restart finding); thorough adds a replica built with the race detector. Compared per step: transaction result code / gas wanted / gas used / data, validator updates, consensus-parameter updates, digest of all monitored stores, application hash of every block. Distinct = <family, replica environment> pairs whose traces were compared in full, plus the number of compared lines."})
+	RegisterPlan(Plan{Prop: "C08", Engine: "replicas", Quick: 30, Thorough: 450, Level: "exploration", MinCases: 15,
+		Rule: "15 workload families (ledger default/slash/keys/power/queues/exit/invalid, oracle, oracle without the memory-tainting input classes, fees, authz, evmacct, live, live's unpriced-asset family, avs) x batches of 3-6 histories, each batch executed by 3 replica processes (GOMAXPROCS 16 / 1 / 3, time zones UTC / Asia/Kolkata / America/St_Johns, the third replica restarting the application object over the same database every 7 blocks where the family has no recorded restart finding); thorough adds a replica built with the race detector. Compared per step: transaction result code / gas wanted / gas used / data, validator updates, consensus-parameter updates, digest of all monitored stores, application hash of every block. Distinct = <family, replica environment> pairs whose traces were compared in full, plus the number of compared lines."})
 }
 
 type replicaFamily struct {
@@ -52,6 +52,8 @@ var replicaFamilies = []replicaFamily{
 	{"evmacct", "C19", "evmacct", "", 4, true},
 	{"live", "C11", "live", "", 4, false},
 	{"avs", "C20", "avs", "", 6, true},
+	{"live:unpriced", "C11", "live", "unpriced", 3, false},
+	{"oracle:notaint", "C12", "oracle", "notaint", 6, true},
 }
 
 type replicaEnv struct {
